@@ -50,6 +50,14 @@ func c08EqEither(a, b gedcom.Node) bool {
 	return a == b || a.Equals(b) || b.Equals(a)
 }
 
+func c08PlainKind(n gedcom.Node) bool {
+	switch n.(type) {
+	case *gedcom.BirthNode, *gedcom.DeathNode, *gedcom.BurialNode, *gedcom.BaptismNode, *gedcom.ResidenceNode, *gedcom.EventNode, *gedcom.DateNode, *gedcom.UniqueIDNode:
+		return false
+	}
+	return true
+}
+
 type c08Checker struct {
 	c        *fw.Ctx
 	leftPar  map[gedcom.Node]gedcom.Node
@@ -114,6 +122,16 @@ func (k *c08Checker) entries(e *gedcom.NodeDiff, parent *gedcom.NodeDiff, depth 
 	}
 	if !ln && !rn && parent != nil && !c08EqEither(e.Left, e.Right) {
 		k.bad("two-sided-unequal", "two-sided entry holds nodes that are not equal: %s vs %s", gen.Describe(e.Left), gen.Describe(e.Right))
+	}
+	// Without asking the library: nodes of a kind that has no equality rule of
+	// its own (everything but births, deaths, burials, baptisms, residences,
+	// events, dates and unique identifiers) are equal when their lines are:
+	// tag, value and pointer.
+	if !ln && !rn && parent != nil && c08PlainKind(e.Left) && c08PlainKind(e.Right) {
+		k.c.Count("two-sided-entries-checked-by-line", 1)
+		if e.Left.Tag().Tag() != e.Right.Tag().Tag() || e.Left.Value() != e.Right.Value() || e.Left.Pointer() != e.Right.Pointer() {
+			k.bad("two-sided-unequal-by-line", "two-sided entry holds nodes with different lines: %s vs %s", gen.Describe(e.Left), gen.Describe(e.Right))
+		}
 	}
 	for _, ch := range e.Children {
 		k.entries(ch, e, depth+1)
@@ -251,8 +269,12 @@ func c08WideFacts(r *fw.Rand) *gen.Spec {
 func c08Run(c *fw.Ctx, i int) {
 	r := c.R
 	kind := []string{"independent", "permuted-copy", "unique-leaves", "fg-individual", "wide-facts"}[i%5]
+	if kind == "unique-leaves" && (i/5)%3 == 1 {
+		kind = "relabelled-lines"
+	}
 	var L, R gedcom.Node
 	var uniqueLeft, uniqueRight []string
+	var relabelled []string
 	wideEdit := 0
 	switch kind {
 	case "independent":
@@ -277,7 +299,31 @@ func c08Run(c *fw.Ctx, i int) {
 	case "permuted-copy":
 		a := c07Tree(r, r.Range(3, 24))
 		L, _ = c07Node(a)
-		if L != nil {
+		if L != nil && (i/5)%4 == 2 {
+			// the copy spells every unique identifier differently: without its
+			// checksum, with another one, in lower case, in braces. "The
+			// checksum (if any) is ignored": still a tree and its re-ordered copy.
+			b := cloneSpec(a)
+			var walk func(x *gen.Spec)
+			walk = func(x *gen.Spec) {
+				if x.Tag == "_UID" {
+					for _, u := range []string{"92FF8B766F327F48A256C3AE6DAE50D3", "EE13561DDB204985BFFDEEBF82A5226C"} {
+						if strings.HasPrefix(strings.ToUpper(strings.NewReplacer("{", "", "}", "", "-", "").Replace(x.Value)), u) {
+							x.Value = []string{u, u + "0000", u + "A1b2", strings.ToLower(u), "{" + u[:8] + "-" + u[8:12] + "-" + u[12:16] + "-" + u[16:20] + "-" + u[20:] + "}"}[r.Intn(5)]
+							c.Count("unique-identifiers-respelled", 1)
+						}
+					}
+				}
+				for _, k := range x.Kids {
+					walk(k)
+				}
+			}
+			walk(b)
+			R, _ = c07Node(b)
+			if R != nil {
+				c07Permute(R, r)
+			}
+		} else if L != nil {
 			R = c07Copy(L)
 			c07Permute(R, r)
 		}
@@ -317,6 +363,42 @@ func c08Run(c *fw.Ctx, i int) {
 		}
 		L, _ = c07Node(a)
 		R, _ = c07Node(b)
+	case "relabelled-lines":
+		// a tree and a copy in which a few lines got another cross-reference
+		// id (and nothing else): the relabelled line exists in the right input
+		// only, whatever its kind
+		a := c07Tree(r, r.Range(4, 20))
+		b := cloneSpec(a)
+		var cand []*gen.Spec
+		var walk func(x *gen.Spec, top bool)
+		walk = func(x *gen.Spec, top bool) {
+			if !top && !c07Contextual[x.Tag] && x.Tag != "INDI" && x.Tag != "FAM" {
+				cand = append(cand, x)
+			}
+			for _, k := range x.Kids {
+				walk(k, false)
+			}
+		}
+		walk(b, true)
+		for k := r.Range(1, 3); k > 0 && len(cand) > 0; k-- {
+			x := cand[r.Intn(len(cand))]
+			if strings.HasPrefix(x.Pointer, "ZQ") {
+				continue
+			}
+			x.Pointer = fmt.Sprintf("ZQ%d%s", len(relabelled)+1, x.Pointer)
+			relabelled = append(relabelled, x.Pointer)
+		}
+		L, _ = c07Node(a)
+		R, _ = c07Node(b)
+		// only lines of a kind without an equality rule of its own count
+		relabelled = nil
+		if R != nil {
+			for _, x := range c07All(R) {
+				if strings.HasPrefix(x.Pointer(), "ZQ") && c08PlainKind(x) {
+					relabelled = append(relabelled, x.Pointer())
+				}
+			}
+		}
 	case "fg-individual":
 		g := gen.NewFG(r, gen.FGOpts{People: r.Range(2, 8), MultiNames: true, WithUIDs: true})
 		p := g.People[r.Intn(len(g.People))]
@@ -426,6 +508,21 @@ func c08Run(c *fw.Ctx, i int) {
 			c.Violation("isdeepequal-true-for-different-trees:IsDeepEqual", "inputs differ by uniquely tagged leaves but IsDeepEqual() is true", payload)
 		}
 	}
+	if kind == "relabelled-lines" {
+		for _, e := range c08AllEntries(d) {
+			if gedcom.IsNil(e.Right) || !strings.HasPrefix(e.Right.Pointer(), "ZQ") || !c08PlainKind(e.Right) {
+				continue
+			}
+			c.Count("one-sided-by-construction", 1)
+			c.Class("relabelled-kind", fmt.Sprintf("%T", e.Right))
+			if !gedcom.IsNil(e.Left) {
+				c.Violation("one-sided-expected:CompareNodes", fmt.Sprintf("the line %s exists in the right input only (no line of the left input has that cross-reference id) but its entry is two-sided with %s", gen.Describe(e.Right), gen.Describe(e.Left)), payload)
+			}
+		}
+		if len(relabelled) > 0 && d.IsDeepEqual() {
+			c.Violation("isdeepequal-true-for-different-trees:IsDeepEqual", "the inputs differ by the cross-reference id of a line but IsDeepEqual() is true\n"+d.String(), payload)
+		}
+	}
 	if kind == "wide-facts" && wideEdit == 1 {
 		c.Count("one-sided-by-construction", 1)
 		if d.IsDeepEqual() {
@@ -439,7 +536,9 @@ func c08Run(c *fw.Ctx, i int) {
 		// Only the listed C07 findings are kept out: node equality that is not
 		// symmetric or not transitive on the nodes present.
 		all := append(c07All(L), c07All(R)...)
-		if c07AsymKinds(all, all) == "" && c07NonTransitiveKinds(all) == "" {
+		// (the listed findings are about DATE lines only: an equality of
+		// another kind that is not symmetric or not transitive keeps nothing out)
+		if !strings.Contains(c07AsymKinds(all, all)+"+"+c07NonTransitiveKinds(all), "DATE(") {
 			c.Count("all-two-sided-demanded", 1)
 			if !d.IsDeepEqual() || one != 0 {
 				c.Violation("deep-equal-inputs-not-all-two-sided:CompareNodes", fmt.Sprintf("the inputs are a tree and its re-ordered copy but IsDeepEqual()=%v and %d one-sided entries\n%s", d.IsDeepEqual(), one, d.String()), payload)
